@@ -56,6 +56,21 @@ theorem base_purge (s : St) (k : String) (h : Base s) : Base (purge s k) := by
   exact ⟨purge_nd s k h.nd, by rw [hj]; exact h.ids, by rw [hj, hn]; exact h.bound,
          by rw [hl, hc]; exact h.lockCount, by rw [hc, hj]; exact h.countJobs⟩
 
+theorem purgeFailed_frame (s : St) (k : String) :
+    (purgeFailed s k).jobs = s.jobs ∧ (purgeFailed s k).lock = s.lock ∧ (purgeFailed s k).count = s.count ∧
+    (purgeFailed s k).nextJob = s.nextJob ∧ (purgeFailed s k).cap = s.cap ∧ (purgeFailed s k).files = s.files ∧
+    (purgeFailed s k).staleCreate = s.staleCreate ∧ (purgeFailed s k).staleRead = s.staleRead := by
+  unfold purgeFailed
+  cases find? s.ds k with
+  | none => simp
+  | some d => simp only; split <;> simp
+
+theorem purgeFailed_nd (s : St) (k : String) (h : Nd s.ds) : Nd (purgeFailed s k).ds := by
+  unfold purgeFailed
+  cases find? s.ds k with
+  | none => exact h
+  | some d => simp only; split; exact h; exact nd_erase _ _ h
+
 /-- `Base` only looks at ds-keys, jobs, nextJob, lock, count -/
 theorem base_of_frame (s s' : St) (h : Base s) (hd : Nd s'.ds) (hj : s'.jobs = s.jobs) (hn : s'.nextJob = s.nextJob)
     (hl : s'.lock = s.lock) (hc : s'.count = s.count) : Base s' :=
@@ -193,6 +208,8 @@ theorem base_step (s : St) (op : Op) (h : Base s) : Base (step s op).1 := by
           | some d => simp [hf] at h1
   | cwrite k size tok =>
     simp only [step, cwrite]
+    split
+    · exact h
     cases find? s.segs k with
     | some g => exact h
     | none =>
@@ -292,7 +309,9 @@ theorem base_step (s : St) (op : Op) (h : Base s) : Base (step s op).1 := by
               · exact key _ false rfl rfl rfl rfl rfl
               · split
                 · exact key _ true rfl rfl rfl rfl rfl
-                · exact key _ false rfl rfl rfl rfl rfl
+                · split
+                  · exact key _ true rfl rfl rfl rfl rfl
+                  · exact key _ false rfl rfl rfl rfl rfl
   | cb id =>
     simp only [step, cbStep]
     cases hf : findJob s.jobs id with
@@ -339,11 +358,11 @@ theorem base_step (s : St) (op : Op) (h : Base s) : Base (step s op).1 := by
           | some d => simp only; split; exact nd_set _ _ _ h.nd; exact h.nd
         cases hk : j.kind <;> cases r <;> simp only
         · -- out, failed
-          obtain ⟨pj, pl, pc, pn, _⟩ := purge_frame { s with jobs := eraseJob s.jobs id } j.key
-          exact dec _ (purge_nd _ _ h.nd) pj pn pl pc hk
+          obtain ⟨pj, pl, pc, pn, _⟩ := purgeFailed_frame { s with jobs := eraseJob s.jobs id } j.key
+          exact dec _ (purgeFailed_nd _ _ h.nd) pj pn pl pc hk
         · exact dec _ (ndStatus _) rfl rfl rfl rfl hk
-        · obtain ⟨pj, pl, pc, pn, _⟩ := purge_frame { s with jobs := eraseJob s.jobs id } j.key
-          exact keep _ (purge_nd _ _ h.nd) pj pn pl pc hk
+        · obtain ⟨pj, pl, pc, pn, _⟩ := purgeFailed_frame { s with jobs := eraseJob s.jobs id } j.key
+          exact keep _ (purgeFailed_nd _ _ h.nd) pj pn pl pc hk
         · exact keep _ (ndStatus _) rfl rfl rfl rfl hk
 
 theorem pageOutAll_free (ws : List String) : ∀ (s0 : St), (pageOutAll s0 ws).free = s0.free ∧ (pageOutAll s0 ws).cap = s0.cap ∧
@@ -365,6 +384,33 @@ theorem pageOutAtLeast_free (s : St) (a t : Nat) : (pageOutAtLeast s a t).free =
   · simp only; split
     · exact ⟨rfl, rfl, fun _ => rfl⟩
     · exact pageOutAll_free _ _
+
+/-- the I/O part of a disk job touches segments, files and the job's `io` field only -/
+theorem ioStep_frame (s : St) (id : Nat) (inj : IoRes) :
+    (ioStep s id inj).1.ds = s.ds ∧ (ioStep s id inj).1.free = s.free ∧ (ioStep s id inj).1.cap = s.cap ∧
+    (ioStep s id inj).1.lock = s.lock ∧ (ioStep s id inj).1.count = s.count := by
+  unfold ioStep
+  cases findJob s.jobs id with
+  | none => simp
+  | some j =>
+    simp only
+    split
+    · simp
+    · cases j.kind with
+      | out => simp only; split; simp; cases find? s.segs j.key <;> simp
+      | inn =>
+        simp only; split; simp
+        cases find? s.segs j.key with
+        | some g => simp
+        | none => simp only; split; simp; split; simp; split <;> simp
+
+theorem cwrite_frame (s : St) (k : String) (size tok : Nat) :
+    (cwrite s k size tok).1.free = s.free ∧ (cwrite s k size tok).1.cap = s.cap ∧ (cwrite s k size tok).1.jobs = s.jobs ∧
+    (cwrite s k size tok).1.lock = s.lock ∧ (cwrite s k size tok).1.count = s.count ∧ (cwrite s k size tok).1.files = s.files := by
+  unfold cwrite
+  split
+  · simp
+  · cases find? s.segs k <;> simp
 
 theorem base_run (ops : List Op) : ∀ (s : St), Base s → Base (run s ops) := by
   induction ops with
